@@ -114,6 +114,317 @@ pub fn detached_links_check(sink: &MSink) -> Option<String> {
     None
 }
 
+
+// ---------------------------------------------------------------- (b) direct operation sequences
+
+use html5ever::tendril::StrTendril;
+use html5ever::tree_builder::{create_element, NodeOrText, TreeSink};
+use html5ever::{Attribute, LocalName, Namespace};
+
+#[derive(Clone, Copy, Debug, PartialEq)]
+pub enum DOp {
+    NewEl(u8),
+    NewComment,
+    Append(u8, u8),
+    AppendText(u8, u8),
+    AppendTpl(u8, u8),
+    Before(u8, u8),
+    BeforeText(u8, u8),
+    Based(u8, u8, u8),
+    Remove(u8),
+    Reparent(u8, u8),
+    Attrs(u8, u8),
+    CloneOpt(u8),
+}
+
+const POOL: u8 = 4;
+const KINDS: [(&str, &[(&str, &str)]); 6] = [("a", &[]), ("template", &[]), ("select", &[]), ("option", &[("selected", "")]), ("selectedcontent", &[]), ("b", &[("id", "1")])];
+const TEXTS: [&str; 2] = ["x", "yz"];
+
+pub fn direct_alphabet() -> Vec<DOp> {
+    let mut v = vec![];
+    for k in 0..KINDS.len() as u8 {
+        v.push(DOp::NewEl(k));
+    }
+    v.push(DOp::NewComment);
+    for p in 0..=POOL {
+        for t in 0..TEXTS.len() as u8 {
+            v.push(DOp::AppendText(p, t));
+        }
+        for c in 1..=POOL {
+            if p != c {
+                v.push(DOp::Append(p, c));
+            }
+        }
+    }
+    for p in 1..=POOL {
+        for c in 1..=POOL {
+            if p != c {
+                v.push(DOp::AppendTpl(p, c));
+                v.push(DOp::Before(p, c));
+                v.push(DOp::Reparent(p, c));
+            }
+        }
+        for t in 0..TEXTS.len() as u8 {
+            v.push(DOp::BeforeText(p, t));
+        }
+        v.push(DOp::Remove(p));
+        v.push(DOp::Attrs(p, 0));
+        v.push(DOp::Attrs(p, 1));
+        v.push(DOp::CloneOpt(p));
+    }
+    for c in 1..=POOL {
+        v.push(DOp::Based(1, 2, c));
+        v.push(DOp::Based(2, 1, c));
+    }
+    v
+}
+
+fn qname(l: &str) -> html5ever::QualName {
+    html5ever::QualName::new(None, Namespace::from(HTML_NS), LocalName::from(l))
+}
+
+/// Apply a history to a fresh MSink (model + RcDom). None = some op's precondition (the
+/// documented TreeSink contract) does not hold.
+pub fn run_direct(ops: &[DOp], h: &[u16]) -> Option<(MSink, Vec<usize>)> {
+    let sink = MSink::new(true, false);
+    let mut pool: Vec<usize> = vec![0];
+    for &s in h {
+        let op = ops[s as usize];
+        let get = |i: u8| -> Option<usize> { pool.get(i as usize).copied() };
+        let d_is_el = |n: usize| sink.dom.borrow().is_element(n);
+        match op {
+            DOp::NewEl(k) => {
+                if pool.len() > POOL as usize {
+                    return None;
+                }
+                let (name, attrs) = KINDS[k as usize];
+                let at: Vec<Attribute> = attrs
+                    .iter()
+                    .map(|(k, v)| Attribute { name: html5ever::QualName::new(None, Namespace::from(""), LocalName::from(*k)), value: StrTendril::from_slice(v) })
+                    .collect();
+                let e = create_element(&sink, qname(name), at);
+                pool.push(e);
+            },
+            DOp::NewComment => {
+                if pool.len() > POOL as usize {
+                    return None;
+                }
+                pool.push(sink.create_comment(StrTendril::from_slice("c")));
+            },
+            DOp::Append(p, c) | DOp::AppendTpl(p, c) => {
+                let (p0, c) = (get(p)?, get(c)?);
+                let parent = if let DOp::AppendTpl(..) = op {
+                    if !sink.dom.borrow().is_html(p0, "template") {
+                        return None;
+                    }
+                    sink.get_template_contents(&p0)
+                } else {
+                    p0
+                };
+                {
+                    let d = sink.dom.borrow();
+                    if d.nodes[c].parent.is_some() || d.is_inclusive_ancestor(c, parent) {
+                        return None;
+                    }
+                    if !(parent == 0 || d.is_element(parent) || matches!(d.nodes[parent].kind, Kind::Fragment)) {
+                        return None;
+                    }
+                }
+                sink.append(&parent, NodeOrText::AppendNode(c));
+            },
+            DOp::AppendText(p, t) => {
+                let p = get(p)?;
+                if p == 0 || !d_is_el(p) {
+                    return None;
+                }
+                sink.append(&p, NodeOrText::AppendText(StrTendril::from_slice(TEXTS[t as usize])));
+            },
+            DOp::Before(sib, c) => {
+                let (sib, c) = (get(sib)?, get(c)?);
+                {
+                    let d = sink.dom.borrow();
+                    let sp = d.nodes[sib].parent?;
+                    if d.is_inclusive_ancestor(c, sp) {
+                        return None;
+                    }
+                }
+                sink.append_before_sibling(&sib, NodeOrText::AppendNode(c));
+            },
+            DOp::BeforeText(sib, t) => {
+                let sib = get(sib)?;
+                {
+                    let d = sink.dom.borrow();
+                    let sp = d.nodes[sib].parent?;
+                    if sp == 0 {
+                        return None;
+                    }
+                }
+                sink.append_before_sibling(&sib, NodeOrText::AppendText(StrTendril::from_slice(TEXTS[t as usize])));
+            },
+            DOp::Based(e, prev, c) => {
+                let (e, prev, c) = (get(e)?, get(prev)?, get(c)?);
+                if c == e || c == prev {
+                    return None;
+                }
+                {
+                    let d = sink.dom.borrow();
+                    if !d.is_element(e) || !d.is_element(prev) {
+                        return None;
+                    }
+                    let target_parent = d.nodes[e].parent.unwrap_or(prev);
+                    if d.is_inclusive_ancestor(c, target_parent) {
+                        return None;
+                    }
+                    // append (no-parent branch) requires a parentless child
+                    if d.nodes[e].parent.is_none() && d.nodes[c].parent.is_some() {
+                        return None;
+                    }
+                }
+                sink.append_based_on_parent_node(&e, &prev, NodeOrText::AppendNode(c));
+            },
+            DOp::Remove(n) => {
+                let n = get(n)?;
+                sink.remove_from_parent(&n);
+            },
+            DOp::Reparent(n, np) => {
+                let (n, np) = (get(n)?, get(np)?);
+                {
+                    let d = sink.dom.borrow();
+                    if !d.is_element(n) || !d.is_element(np) || d.is_inclusive_ancestor(n, np) || d.nodes[n].children.is_empty() {
+                        return None;
+                    }
+                }
+                sink.reparent_children(&n, &np);
+            },
+            DOp::Attrs(n, which) => {
+                let n = get(n)?;
+                if !d_is_el(n) {
+                    return None;
+                }
+                let at = if which == 0 {
+                    vec![Attribute { name: html5ever::QualName::new(None, Namespace::from(""), LocalName::from("id")), value: StrTendril::from_slice("2") }]
+                } else {
+                    vec![
+                        Attribute { name: html5ever::QualName::new(None, Namespace::from(""), LocalName::from("selected")), value: StrTendril::from_slice("s") },
+                        Attribute { name: html5ever::QualName::new(None, Namespace::from(""), LocalName::from("k")), value: StrTendril::from_slice("v") },
+                    ]
+                };
+                sink.add_attrs_if_missing(&n, at);
+            },
+            DOp::CloneOpt(n) => {
+                let n = get(n)?;
+                if !sink.dom.borrow().is_html(n, "option") {
+                    return None;
+                }
+                sink.maybe_clone_an_option_into_selectedcontent(&n);
+            },
+        }
+    }
+    Some((sink, pool))
+}
+
+fn direct_key(sink: &MSink, pool: &[usize]) -> u128 {
+    let d = sink.dom.borrow();
+    let mut s = d.render_doc();
+    for (i, &n) in pool.iter().enumerate().skip(1) {
+        let par = d.nodes[n].parent;
+        s.push_str(&format!("~pool{i} parent={:?}\n", par.map(|p| pool.iter().position(|x| *x == p))));
+        if par.is_none() {
+            d.render(n, &mut s, 1);
+        }
+    }
+    digest(&s)
+}
+
+fn direct_check(sink: &MSink, pool: &[usize]) -> Option<(String, String)> {
+    if let Some(c) = sink.contract.borrow().first() {
+        return Some(("harness-contract".into(), format!("the harness issued a call the monitor rejects: {c}")));
+    }
+    let rc = sink.rc.as_ref().unwrap();
+    if let Some(m) = compare_rcdom(&sink.dom.borrow(), 0, &rc.document, "") {
+        return Some(("rcdom-differs".into(), m));
+    }
+    for &n in pool.iter().skip(1) {
+        if sink.dom.borrow().nodes[n].parent.is_none() {
+            if let Some(h) = sink.rc_handle_of(n) {
+                if let Some(m) = compare_rcdom(&sink.dom.borrow(), n, &h, &format!("detached#{n}")) {
+                    return Some(("rcdom-differs".into(), m));
+                }
+            }
+        }
+    }
+    if let Some(m) = detached_links_check(sink) {
+        return Some(("parent-link".into(), m));
+    }
+    if let Some(m) = serialize_visit_check(&sink.dom.borrow(), rc) {
+        return Some(("serialize-order".into(), m));
+    }
+    None
+}
+
+pub fn render_direct(ops: &[DOp], h: &[u16]) -> String {
+    format!("direct: {}", h.iter().map(|&s| format!("{:?}", ops[s as usize])).collect::<Vec<_>>().join("; "))
+}
+
+pub fn direct(ctx: &Ctx) -> (u64, u64, bool, usize) {
+    let ops = direct_alphabet();
+    let depth = ctx.tier.pick(5, 7);
+    let cfg = BfsCfg { max_depth: depth, max_states: 60_000_000, max_secs: ctx.tier.pick(15.0, 300.0) };
+    let root = {
+        let (s, p) = run_direct(&ops, &[]).unwrap();
+        direct_key(&s, &p)
+    };
+    let out = bfs(
+        vec![(vec![], root)],
+        ops.len(),
+        &cfg,
+        |h, s| {
+            let mut nh = h.to_vec();
+            nh.push(s);
+            match guarded(|| run_direct(&ops, &nh)) {
+                Err(p) => {
+                    ctx.violation("panic", &render_direct(&ops, &nh), json!({"panic": p}));
+                    Step::Violation
+                },
+                Ok(None) => Step::Disabled,
+                Ok(Some((sink, pool))) => {
+                    if let Some((k, m)) = direct_check(&sink, &pool) {
+                        if k == "harness-contract" {
+                            machinery(&format!("{m} in {}", render_direct(&ops, &nh)));
+                        }
+                        ctx.violation(&k, &render_direct(&ops, &nh), json!({"message": m, "model": sink.dom.borrow().render_doc()}));
+                        return Step::Violation;
+                    }
+                    Step::Next(direct_key(&sink, &pool))
+                },
+            }
+        },
+        |_, _| {},
+    );
+    let complete = out.closed || out.capped_by.as_deref().map(|c| c.starts_with("max_depth")).unwrap_or(false);
+    (out.states, out.transitions, complete, depth)
+}
+
+pub fn replay_direct(ctx: &Ctx, w: &str) {
+    let ops = direct_alphabet();
+    let names: Vec<String> = ops.iter().map(|o| format!("{o:?}")).collect();
+    let h: Vec<u16> = w.trim_start_matches("direct: ").split("; ").filter(|s| !s.is_empty()).map(|s| names.iter().position(|n| n == s).unwrap_or_else(|| machinery("unknown op")) as u16).collect();
+    match run_direct(&ops, &h) {
+        None => println!("replay: history not enabled"),
+        Some((sink, pool)) => {
+            println!("{}", sink.dom.borrow().render_doc());
+            match direct_check(&sink, &pool) {
+                None => println!("replay: passes"),
+                Some((k, m)) => {
+                    ctx.violation(&k, w, json!({ "message": m }));
+                    println!("replay: FAILS");
+                },
+            }
+        },
+    }
+}
+
 pub fn main(ctx: &Ctx) -> ! {
     let _ = (json!(0), BfsCfg { max_depth: 0, max_states: 0, max_secs: 0.0 });
     crate::e2::main(ctx, crate::e2::Prop::C20)
